@@ -82,7 +82,7 @@ def resolve(discs):
     return vals
 
 
-def build(variants, repr, discs, cfg, laws=True):
+def build(variants, repr, discs, cfg, laws=True, methods=False):
     """variants: list of (style, [payload codes]) with style u/t/n"""
     traits, derives = CFG[cfg]
     if repr and 'C' in repr.replace(' ', '').split(',') and int_of(repr) and all(st == 'u' for st, _ in variants):
@@ -93,14 +93,18 @@ def build(variants, repr, discs, cfg, laws=True):
         lines.append('#[repr(%s)]\n' % repr)
     lines.append('#[educe(%s)]\n' % traits)
     lines.append('pub enum Ty {\n')
+    # every payload field compared through a custom method that answers like the type's own comparison (the model does not change)
+    fa = ''
+    if methods:
+        fa = '#[educe(PartialOrd(method(pcmp_std)))] ' if cfg == 'PO' else ('#[educe(Ord(method(cmp_std)))] ' if cfg in ('O', 'OP') else '#[educe(PartialOrd(method(cmp_std)))] ')
     for vi, (st, ps) in enumerate(variants):
         d = '' if discs[vi] is None else ' = %d' % discs[vi]
         if st == 'u':
             lines.append('    V%d%s,\n' % (vi, d))
         elif st == 't':
-            lines.append('    V%d(%s)%s,\n' % (vi, ', '.join(PAYLOADS[p][0] for p in ps), d))
+            lines.append('    V%d(%s)%s,\n' % (vi, ', '.join(fa + PAYLOADS[p][0] for p in ps), d))
         else:
-            lines.append('    V%d { %s }%s,\n' % (vi, ', '.join('f%d: %s' % (i, PAYLOADS[p][0]) for i, p in enumerate(ps)), d))
+            lines.append('    V%d { %s }%s,\n' % (vi, ', '.join('%sf%d: %s' % (fa, i, PAYLOADS[p][0]) for i, p in enumerate(ps)), d))
     lines.append('}\n')
     src = ''.join(lines)
     if cfg == 'O':
@@ -150,7 +154,7 @@ def build(variants, repr, discs, cfg, laws=True):
         parts = vk.split(',')
         vk = 'x%d:%s' % (len(parts), ','.join('%s*%d' % (g, len(list(it))) for g, it in itertools.groupby(parts)))
         dk = '%s..%s#%x' % ('_' if discs[0] is None else discs[0], '_' if discs[-1] is None else discs[-1], shash(dk) & 0xffff)
-    key = 'C04|%s|%s|repr(%s)|%s' % (cfg, vk, repr or '', dk)
+    key = 'C04|%s|%s|repr(%s)|%s%s' % (cfg, vk, repr or '', dk, '|methods' if methods else '')
     depth = (1 if repr else 0) + sum(1 for d in discs if d is not None) + sum(len(ps) for _, ps in variants)
     return Case(key, src, {'cfg': cfg, 'variants': vk, 'repr': repr, 'discriminants': discs if len(discs) <= 12 else dk, 'resolved': vals if len(vals) <= 12 else [vals[0], vals[-1]], 'values': len(values)},
                 expect='accept', run=True, depth=depth)
@@ -228,6 +232,12 @@ def generate(tier):
         if repr is None:
             vs = [('u', []), ('t', ['bool']), ('n', ['u8'])] * 4
             cases.append(build(vs, None, [None] * 12, 'OP'))
+    # every payload field behind a custom method (no field is compared the built-in way)
+    for vs in ([('t', ['u8'])], [('u', []), ('t', ['u8'])], [('n', ['u8', 'bool']), ('u', [])], [('t', ['i8']), ('n', ['u8']), ('t', ['bool', 'u8'])], [('t', ['u8']), ('t', ['u8'])]):
+        for repr in (None, 'i16'):
+            for discs in disc_patterns(len(vs), repr, False)[:3]:
+                for cfg in cfgs:
+                    cases.append(build(vs, repr, discs, cfg, methods=True))
     # G: more variants than a byte can rank (256, 257, 300): implicit, decreasing and rotated discriminants; payloads beyond position 255
     for v in (256, 257, 300):
         for repr, dk in ((None, 'implicit'), ('u16', 'decreasing'), ('i16', 'rotated'), ('u16', 'payload')):
@@ -240,6 +250,8 @@ def generate(tier):
                 vs = [('u', [])] * (v - 6) + [('t', ['bool']), ('u', []), ('n', ['u8']), ('u', []), ('t', ['unit']), ('u', [])]
             k += 1
             cases.append(build(vs, repr, discs, cfgs[k % 4], laws=False))
+    from .common import decoy_layer
+    cases += decoy_layer([c for c in cases if c is not None and len(c.body) < 20000], 80)
     seen, out = set(), []
     for c in cases:
         if c is not None and c.key not in seen:
